@@ -119,12 +119,39 @@ func runCase(c *caseT, o runOpts) (out runOut) {
 	return runOnce(c, o, false)
 }
 
+// built grammars are REUSED across the inputs of consecutive cases with the same grammar (a parser graph is
+// built once and used for many parses; state that survives in the graph between parses must not matter)
+type builtG struct {
+	t  *tracer
+	ps []parsley.Parser
+}
+
+var builtCache = map[string]*builtG{}
+
+func getBuilt(c *caseT, preflight bool) *builtG {
+	kb, _ := json.Marshal(c.G)
+	key := fmt.Sprintf("%v|%s", preflight, kb)
+	if b, ok := builtCache[key]; ok {
+		return b
+	}
+	if len(builtCache) > 8 {
+		builtCache = map[string]*builtG{}
+	}
+	t := &tracer{preflight: preflight}
+	b := &builtG{t: t, ps: build(c.G, t)}
+	builtCache[key] = b
+	return b
+}
+
 func runOnce(c *caseT, o runOpts, preflight bool) (out runOut) {
-	t := &tracer{budget: o.budget, trees: o.trees, quiet: o.quiet, preflight: preflight}
+	b := getBuilt(c, preflight)
+	t, ps := b.t, b.ps
+	t.budget, t.trees, t.quiet = o.budget, o.trees, o.quiet
+	t.ev, t.stack, t.over, t.bound, t.count, t.watch = nil, nil, false, false, 0, nil
+	t.attempts, t.nfails, t.bodyRuns = map[[2]int]bool{}, map[[2]int]bool{}, map[[2]int]int{}
 	if o.watch {
 		t.watch = &watcher{}
 	}
-	ps := build(c.G, t)
 	content := bytesOf(c.W)
 	f, fs := fileAt(content, c.B)
 	rd := text.NewReader(f)
